@@ -54,6 +54,33 @@ CLAIMED["C07"] = dict(
     design="DESIGN.md section 6, C07",
 )
 
+CLAIMED["C01"] = dict(
+    text="Lean 4 replay theorem over the model of Differ.diff and Patcher (scriptGen_replay): for every matching, "
+    "option set and document size, whenever the script generator completes, the shipped patcher applied to the left "
+    "document accepts the emitted script (no assert fails, every path resolves to exactly one node) and its result is "
+    "exactly the differ's final working copy (C01_patch_reproduces_working_copy, C01_final_wf), together with the "
+    "refinement strict => shipped. PARTIAL: that this final working copy equals the right document (the Chawathe "
+    "script-generation invariant) is not proved yet; it is compared on every generated case (U5 compares the model's "
+    "and the real differ's final tree, the round-trip oracle compares patch_tree(diff_trees(L,R),L) with R). Models are "
+    "tied to the code by units U1 U2 U4 U5 and the end-to-end comparison.",
+    note="Trusted: Lean kernel and standard axioms; hand-written models of Differ.match/diff and Patcher validated by "
+    "differential execution on every run, not proved; similarity values are an oracle; namespace-free documents only "
+    "in the model (namespaced documents: oracle stream only).",
+    technique="Lean 4 proof (simulation of patcher against differ working copy, tree-surgery lemmas) + correspondence + round-trip oracle",
+    design="DESIGN.md section 6, C01",
+)
+CLAIMED["C13"] = dict(
+    text="Lean 4 theorems: for every matching, option set and document size no action of the emitted script names an "
+    "ignored attribute (C13_never_named), and per node pair the attribute actions avoid ignored names, are applicable in "
+    "order and produce the stored attribute list (C13_attr_actions_avoid_ignored). PARTIAL: round trip up to ignored "
+    "attributes and emptiness for documents equal up to ignored attributes are decided per run by the oracles of the "
+    "differ cluster (stream with random ignored_attrs subsets), not by a theorem.",
+    note="Trusted: Lean kernel and standard axioms; model of update_node_attr / node_attribs validated by U5; fixed "
+    "defect 715fccf (ignored unique attribute) recorded in known_findings.json.",
+    technique="Lean 4 proof (phase invariants of update_node_attr, fold over the script generator) + correspondence + oracles",
+    design="DESIGN.md section 6, C13",
+)
+
 NOT_YET = {}
 
 
